@@ -320,12 +320,20 @@ impl ActorProperties {
         message: SerializedMessage,
     ) -> Result<(), Box<MessagingErr<SerializedMessage>>> {
         if self.get_status() >= ActorStatus::Draining {
+            #[cfg(ractor_verif)]
+            crate::verif::point("send.status", self.id.pid(), ActorStatus::Draining as i64);
             return Err(Box::new(MessagingErr::SendErr(message)));
         }
+        #[cfg(ractor_verif)]
+        crate::verif::point("send.status", self.id.pid(), ActorStatus::Running as i64);
 
         let Some(_admission) = self.try_admit_message() else {
+            #[cfg(ractor_verif)]
+            crate::verif::point("send.admit", self.id.pid(), 0);
             return Err(Box::new(MessagingErr::SendErr(message)));
         };
+        #[cfg(ractor_verif)]
+        crate::verif::point("send.admit", self.id.pid(), 1);
         let boxed = BoxedMessage {
             msg: None,
             serialized_msg: Some(message),
